@@ -34,7 +34,8 @@ TABLE = {
 }
 TRANSFORMER_MEMBERS = {"Transformer::resolve"}
 ID_LEAF = re.compile(r"(\.type_params\)?\)*\.ty(@v1::Some\.0)?\.id$)|(@TypeDef::(Array|Sequence|Compact)\.0\.type_param\.id$)|(@TypeDef::Tuple\.0\.fields\)*\.id$)"
-                     r"|(@TypeDef::BitSequence\.0\.bit_(order|store)_type\.id$)|(^C\d+_\d+\.id$)")
+                     r"|(@TypeDef::BitSequence\.0\.bit_(order|store)_type\.id$)|(^C\d+_\d+\.id$)|(^C\d+_\d+\.ty@v1::Some\.0\.id$)"
+                     r"|(^Iterator::next\(mut\[Iterator::peekable\(P\d+\.type_def@TypeDef::Tuple\.0\.fields\);.*\]\)@v1::Some\.0\.id$)", re.S)
 
 
 def _sig(comp):
